@@ -149,6 +149,8 @@ structure Obs where
   events : List (EvKind × Name) := []
   queue : List Msg := []
   members : List (Name × Status × Nat) := []
+  /-- buffered intents: name, isLeave, ltime -/
+  intents : List (Name × Bool × Nat) := []
   sf : Nat := 0
   sl : Nat := 0
   sm : Nat := 0
@@ -176,6 +178,13 @@ def parseMember (s : String) : Option (Name × Status × Nat) :=
     | some x, some status, some lt => some (x, status, lt) | _, _, _ => none
   | _ => none
 
+def parseIntent (s : String) : Option (Name × Bool × Nat) :=
+  match s.splitOn ":" with
+  | [n, k, t] => match stringOfHex? n, t.toNat? with
+    | some x, some lt => if k == "L" then some (x, true, lt) else if k == "J" then some (x, false, lt) else none
+    | _, _ => none
+  | _ => none
+
 def fieldVal (fs : List String) (key : String) : Option String :=
   (fs.find? (·.startsWith (key ++ "="))).map fun s => String.ofList (s.toList.drop (key.length + 1))
 
@@ -184,16 +193,18 @@ def parseObs (impl : String) : Option Obs := do
   let ev ← (splitList (← fieldVal fs "ev")).mapM parseEvent
   let q ← (splitList (← fieldVal fs "q")).mapM parseMsg
   let ms ← (splitList (← fieldVal fs "m")).mapM parseMember
+  let is ← (splitList (← fieldVal fs "i")).mapM parseIntent
   let sf ← (← fieldVal fs "sf").toNat?
   let sl ← (← fieldVal fs "sl").toNat?
   let sm ← (← fieldVal fs "sm").toNat?
   let c ← (← fieldVal fs "c").toNat?
   let s ← fieldVal fs "s"
-  pure { events := ev, queue := q, members := ms, sf := sf, sl := sl, sm := sm, life := s, clock := c }
+  pure { events := ev, queue := q, members := ms, intents := is, sf := sf, sl := sl, sm := sm, life := s, clock := c }
 
 /-- Model side of one trace line: new node and the canonical output. -/
 def modelLine (n : Node) (f : List String) : Node × String × HOp :=
   let h := parseOp f
+  if n.life = .shutdown then (n, (match h with | .bad => "bad-op" | _ => "after-shutdown"), .bad) else
   match h with
   | .bad => (n, "bad-op", h)
   | .localState => (n, showLocalState n, h)
@@ -213,5 +224,9 @@ structure Base where
   node : Node := initNode
   prev : Obs := { members := [(selfName, .alive, 0)], sm := 1, life := "alive", clock := 1 }
   deriving Inhabited
+
+def Obs.ltimeOf (o : Obs) (x : Name) : Option Nat := (o.members.find? (·.1 == x)).map (·.2.2)
+def Obs.statusOf (o : Obs) (x : Name) : Option Status := (o.members.find? (·.1 == x)).map (·.2.1)
+def Obs.knows (o : Obs) (x : Name) : Bool := (o.members.find? (·.1 == x)).isSome
 
 end SerfModel.Check.NodeCommon
